@@ -55,6 +55,67 @@ OutCases ==
 SmallIn == XInCases \cup RInCases \cup SInCases
 InAllSeq == InSeq \o SetToSeq(SmallIn)
 
+-----------------------------------------------------------------------------
+(* The pool of cases for the interleaving dimension (TypedToolConc.tla): the  *)
+(* calls of a concurrent scenario are assigned cases from this pool, all on   *)
+(* the one server without a SchemaCache.  It contains every JSON type of      *)
+(* output - arrays, strings, numbers, booleans, null, and objects for         *)
+(* comparison - valid and invalid, from typed, `any` and pointer Out types,   *)
+(* with and without content of the handler's own, several DIFFERENT valid     *)
+(* outputs of one and the same tool (so that a call that is handed another    *)
+(* call's output is told apart), and a few input cases (defaults materialised,*)
+(* struct inputs, an invalid request that is answered without a handler).     *)
+IsOneOf(x, S) == \E y \in S : SameJ(x, y)
+ConcOut ==
+  {c \in OutCases : c.cache = "none" /\ ~Lead(c) /\
+     \/ (~c.content /\ <<c.sid, c.okind>> \in {<<"arr", "ints">>, <<"int", "int">>, <<"enum", "str">>})
+     \/ (c.content /\ <<c.sid, c.okind>> = <<"arr", "ints">> /\ SameJ(c.out, JArr(<<JInt(1), JInt(2)>>)))
+     \/ (c.content /\ <<c.sid, c.okind>> = <<"int", "int">> /\ SameJ(c.out, JInt(1)))
+     \/ (~c.content /\ c.okind = "any" /\
+           \/ (c.sid = "arr" /\ IsOneOf(c.out, {JArr(<<JInt(1), JInt(2)>>), JArr(<<JStr("x")>>)}))
+           \/ (c.sid = "int" /\ IsOneOf(c.out, {JInt(3), JHalf(3)}))
+           \/ (c.sid = "enum" /\ IsOneOf(c.out, {JStr("a"), JStr("c")})))
+     \/ (~c.content /\ c.sid = "reflect" /\ c.okind \in {"strs", "rint", "rstr", "rbool", "pint"})
+     \/ (~c.content /\ c.sid = "reflect" /\ c.okind = "struct" /\ IsOneOf(c.out, OutSVals))
+     \/ (~c.content /\ c.sid = "reflect" /\ c.okind = "ptr" /\ c.nilform)
+     \/ (~c.content /\ c.sid = "objOO" /\ c.okind = "map" /\ ~c.nilform
+           /\ IsOneOf(c.out, {EmptyObj, JObj([k |-> JInt(1), r |-> JStr("s")])}))}
+ConcVr == [nDef |-> TRUE, nReq |-> FALSE, addl |-> TRUE, nest |-> "dflt"]
+ConcInIx == {<<1, 2, 1, 1, 1>>,      \* {mode:"a"}: n and opt.lvl are supplied by defaults
+             <<4, 2, 6, 3, 2>>,      \* {n:3, mode:"a", opt:{lvl:7}, tags:["x","y"], extra:1}: nothing to default
+             <<1, 3, 1, 1, 1>>}      \* {mode:"c"}: invalid, answered without a handler
+ConcIn ==
+  {InCase("in", ConcVr, "map", "none", ClassAt(ix), ArgsAt(ix)) : ix \in ConcInIx}
+  \cup {InCase("rin", NoVariant, "InA", "none", GoClassAt("InA", ix), GoArgsAt("InA", ix)) : ix \in {<<3, 2, 3, 3, 1>>, <<2, 2, 1, 1, 1>>}}
+  \cup {InCase("rin", NoVariant, "InB", "none", GoClassAt("InB", ix), GoArgsAt("InB", ix)) : ix \in {<<2, 2, 4, 3, 1>>}}
+ConcOutSeq == SetToSeq(ConcOut)
+ConcInSeq == SetToSeq(ConcIn)
+(* the pool for scenarios of three calls: different valid non-object outputs, two of them of one tool *)
+Conc3 == {c \in ConcOut : ~c.content /\
+            \/ (<<c.sid, c.okind>> = <<"int", "int">> /\ IsOneOf(c.out, {JInt(1), JInt(3)}))
+            \/ (<<c.sid, c.okind>> = <<"arr", "ints">> /\ SameJ(c.out, JArr(<<JInt(1), JInt(2)>>)))
+            \/ (<<c.sid, c.okind>> = <<"reflect", "rstr">> /\ SameJ(c.out, JStr("a")))}
+
+JTypes == {"object", "array", "string", "integer", "number", "boolean", "null"}
+ConcWitnesses ==
+  /\ \A c \in ConcIn : IF c.kind = "in" THEN SomeIn(LAMBDA d : d = c) ELSE c \in RInCases
+  \* every JSON type occurs as a handler output, and each non-object type as a VALID output
+  /\ \A t \in JTypes : \E c \in ConcOut : JType(c.out) = t
+  /\ \A t \in JTypes \ {"object", "number"} : \E c \in ConcOut : JType(c.out) = t /\ OutOk(c)
+  /\ \E c \in ConcOut : IsObj(c.out) /\ OutOk(c)
+  /\ \E c \in ConcOut : ~OutOk(c)
+  \* two different valid outputs of one tool, for every non-object type that has two values
+  /\ \A t \in {"array", "string", "integer", "boolean"} :
+        \E c1, c2 \in ConcOut : /\ c1.sid = c2.sid /\ c1.okind = c2.okind /\ OutOk(c1) /\ OutOk(c2)
+                                  /\ JType(c1.out) = t /\ JType(c2.out) = t /\ ~SameJ(OutJson(c1), OutJson(c2))
+  /\ \E c \in ConcOut : c.content /\ OutOk(c) /\ ~IsObj(c.out)
+  /\ \E c \in ConcOut : c.nilform /\ OutOk(c)
+  /\ \E c \in ConcIn : ValidIn(c) /\ ~SameJ(WithDefaults(CaseInSchema(c), c.args), c.args)
+  /\ \E c \in ConcIn : ValidIn(c) /\ c.kind = "rin"
+  /\ \E c \in ConcIn : ~ValidIn(c)
+  /\ Conc3 # {} /\ \A c \in Conc3 : OutOk(c) /\ ~IsObj(c.out)
+  /\ \E c1, c2 \in Conc3 : c1.sid = c2.sid /\ c1.okind = c2.okind /\ ~SameJ(c1.out, c2.out)
+
 FailIn(c)  == IF HoldsIn(c, ExpectedIn(c)) THEN FALSE
               ELSE PrintT(<<"design-fail-in", c, ExpectedIn(c)>>)
 FailOut(c) == IF HoldsOut(c, ExpectedOut(c)) <=> ~Lead(c) THEN FALSE
@@ -133,14 +194,20 @@ InLine(c) == [kind |-> c.kind, vid |-> IF c.kind = "in" THEN VarId(c.vr) ELSE c.
 OutLine(c) == [kind |-> "out", sid |-> c.sid, okind |-> c.okind, cache |-> c.cache, out |-> c.out,
                nilform |-> c.nilform, content |-> c.content, valid |-> OutOk(c), lead |-> Lead(c)]
 
-Export == ndJsonSerialize("cases.ndjson", SchemaLines \o [i \in DOMAIN InAllSeq |-> InLine(InAllSeq[i])] \o MapSeq(OutCases, OutLine))
+PoolLine(c) == [kind |-> "concpool", three |-> (c.kind = "out" /\ c \in Conc3),
+                case |-> IF c.kind = "out" THEN OutLine(c) ELSE InLine(c)]
+Export == ndJsonSerialize("cases.ndjson", SchemaLines \o [i \in DOMAIN InAllSeq |-> InLine(InAllSeq[i])] \o MapSeq(OutCases, OutLine)
+                                          \o [i \in DOMAIN ConcOutSeq |-> PoolLine(ConcOutSeq[i])]
+                                          \o [i \in DOMAIN ConcInSeq |-> PoolLine(ConcInSeq[i])])
 
 ASSUME DesignIn
 ASSUME DesignOut
 ASSUME Witnesses
+ASSUME ConcWitnesses
 ASSUME PrintT(ToJson([incases |-> Len(InSeq), rincases |-> Cardinality(RInCases),
                       xincases |-> Cardinality(XInCases), sincases |-> Cardinality(SInCases),
-                      outcases |-> Cardinality(OutCases), leads |-> Cardinality({c \in OutCases : Lead(c)}),
+                      outcases |-> Cardinality(OutCases), concpool |-> Cardinality(ConcOut) + Cardinality(ConcIn),
+                      concpool3 |-> Cardinality(Conc3), leads |-> Cardinality({c \in OutCases : Lead(c)}),
                       validin |-> Cardinality({i \in DOMAIN InAllSeq : ValidIn(InAllSeq[i])}),
                       outok |-> Cardinality({c \in OutCases : OutOk(c)})]))
 ASSUME Export
